@@ -352,6 +352,11 @@ func runStmtCases(seed uint64, n int, outDir string, extra map[string]interface{
 							fmt.Fprintf(fout, "%x\n", bb)
 						}
 						fmt.Fprintf(fsrc, "%s\n", src)
+						// the statement of function_body_bytes_lex_back_closed evaluated on the same body (with the bytes tied
+						// above, the real output lexes back to the printer's tokens)
+						fmt.Fprintf(fin, "jsstmtlx\t%s\n", in)
+						fmt.Fprintf(fout, "ok\n")
+						fmt.Fprintf(fsrc, "%s\n", src)
 					}
 					fmt.Fprintf(fin, "jsstmtr\t%s\n", in)
 					fmt.Fprintf(fout, "ok\n")
